@@ -130,6 +130,37 @@ def check(prop, tier, repo, seed):
             for f in res.gen.fns[:3]:
                 samples.append({"obligation": f["obligations"], "fn": f["qual"], "at": "%s:%d" % (f["file"], f["line"]), "result": "verified"})
 
+    # ---------------- bounded native checks (stand-ins for functions outside the verifier's reach; never counted as proved)
+    bounded = []
+    native_fail = []
+    for nat in cfg.get("native", []):
+        import search as S
+        args = nat["thorough"] if tier == "thorough" else nat["quick"]
+        try:
+            nrc, d = S.run_native(nat["prog"], args, repo)
+        except Exception as e:
+            undecided.append("native bounded check %s could not run: %s" % (nat["prog"], str(e)[-300:]))
+            continue
+        checker_cmds.append("%s %s (native, bounded)" % (nat["prog"], " ".join(args)))
+        rec = {"obligation": nat["obligation"], "program": nat["prog"], "kind": "bounded", "bound": d.get("bound", nat.get("bound", "")),
+               "evaluations": d.get("evaluations", 0), "result": "ok" if nrc == 0 else "fail"}
+        bounded.append(rec)
+        if nrc == 0:
+            samples.append({"obligation": nat["obligation"], "bounded": True, "result": d})
+        elif nrc == 1:
+            f = {"message": "bounded native check disagrees with the specification", "fn": nat["fn"], "file": nat["file"], "line": 0,
+                 "obligations": [nat["obligation"]], "mine": [nat["obligation"]], "rendered": json.dumps(d), "gen_line": 0, "harness": nat["prog"],
+                 "kind": "native"}
+            k = is_known(known, prop, f)
+            if k:
+                known_hits.append((k, f))
+            else:
+                violations.append(f)
+                native_fail.append(dict(d, program=nat["prog"], native=True))
+                print("FAILING INPUT (%s on the real code): %s" % (nat["prog"], json.dumps(d)))
+        else:
+            undecided.append("native bounded check %s exited %d: %s" % (nat["prog"], nrc, str(d)[:300]))
+
     # ---------------- thorough: stability under other solver seeds (reported, never an alarm)
     unstable = []
     if tier == "thorough" and not violations and not undecided:
@@ -147,11 +178,12 @@ def check(prop, tier, repo, seed):
                     discharged -= r.verified
 
     # ---------------- counterexample search for Verus failures (native, bounded, source of failing inputs only)
-    cex = None
-    if violations and cfg.get("search"):
+    cex = native_fail or None
+    if [v for v in violations if v.get("kind") != "native"] and cfg.get("search"):
         try:
             import search as S
-            cex = S.find(cfg["search"], repo, violations)
+            cex = (cex or []) + (S.find(cfg["search"], repo, [v for v in violations if v.get("kind") != "native"]) or [])
+            cex = cex or None
         except Exception as e:      # search is best effort
             notes.append("counterexample search failed to run: %s" % e)
 
@@ -169,7 +201,7 @@ def check(prop, tier, repo, seed):
             "property": prop,
             "failed_obligations": sorted({o for v in violations for o in v["mine"]}),
             "failures": [{"obligation": v["mine"], "function": v["fn"], "repo_location": "%s:%s" % (v["file"], v["line"]),
-                          "verifier": "verus", "reason": v["message"], "verifier_output": v["rendered"],
+                          "verifier": "native-bounded" if v.get("kind") == "native" else "verus", "reason": v["message"], "verifier_output": v["rendered"],
                           "generated_file": v.get("gen_path"), "generated_line": v["gen_line"]} for v in violations],
             "failing_input": cex,
             "replay_cmd": ("python3 %s/vp.py replay %s" % (VERIF, replay_path)),
@@ -193,6 +225,8 @@ def check(prop, tier, repo, seed):
 
     # ---------------- evidence
     level = cfg["level"] if rc == 0 else "other"
+    if bounded and level == "proof":
+        level = "other"      # a run with a bounded stand-in is never reported as a pure proof
     cov = {
         "obligations": obligations,
         "discharged": discharged,
@@ -206,6 +240,7 @@ def check(prop, tier, repo, seed):
         "canary": {u.unit: u.canary_ok for u in units},
         "unstable_under_seeds": unstable,
         "bounds": cfg.get("bounds", {}),
+        "bounded_checks": bounded,
         "explanation": cfg["level_text"] + (" THIS RUN DID NOT DISCHARGE EVERYTHING: rc=%d" % rc if rc else ""),
         "exhaustive": False,
         "known_findings_reproduced": [k["text"] for (k, f) in known_hits],
